@@ -86,7 +86,7 @@ impl Env {
         let mut s = self.open()?.get_all_snapshots().map_err(|e| format!("get_all_snapshots: {}", errstr(&e)))?;
         // order that does not depend on ids (ids differ between twin repositories)
         let label = |x: &SnapshotFile| format!("{}:{}", x.hostname, x.tags.iter().cloned().collect::<Vec<_>>().join(","));
-        s.sort_by(|a, b| a.time.cmp(&b.time).then(label(a).cmp(&label(b))).then(a.id.cmp(&b.id)));
+        s.sort_by(|a, b| a.time.cmp(&b.time).then(label(a).cmp(&label(b))).then(a.tree.cmp(&b.tree)).then(a.id.cmp(&b.id)));
         Ok(s)
     }
 }
